@@ -302,6 +302,7 @@ PROBE = r'''
 REPLAY = r'''
 // native replay: color_convert on real 8-bit pixels of the instantiation's source / destination types
 #include <boost/gil.hpp>
+#include <cstdlib>
 #include "vreplay.hpp"
 using namespace boost::gil;
 #include "inst.hpp"
@@ -330,6 +331,12 @@ int main(int argc, char** argv){ vr::parse(argc, argv);
     if (!boost::mp11::mp_contains<color_space_type<SRCP>::type, alpha_t>::value && !alpha_max(d)) bada++;
   }
   bad += from_rgba_check<SRCP, DSTP>();
+  { // float pixels: cmyk black -> rgb black, cmyk white -> rgb white, rgb8 -> cmyk32f -> rgb8 is the identity on a grid
+    cmyk32f_pixel_t kb(0.f, 0.f, 0.f, 1.f), kw(0.f, 0.f, 0.f, 0.f); rgb8_pixel_t r1, r2; color_convert(kb, r1); color_convert(kw, r2);
+    if (r1 != rgb8_pixel_t(0, 0, 0)) REPRODUCED("cmyk32f black -> rgb8 (%d,%d,%d), expected (0,0,0)", (int)r1[0], (int)r1[1], (int)r1[2]);
+    if (r2 != rgb8_pixel_t(255, 255, 255)) REPRODUCED("cmyk32f white -> rgb8 (%d,%d,%d), expected (255,255,255)", (int)r2[0], (int)r2[1], (int)r2[2]);
+    for (int a = 0; a < 256; a += 51) for (int b = 0; b < 256; b += 51) for (int c = 0; c < 256; c += 51) { rgb8_pixel_t p(a, b, c), q; cmyk32f_pixel_t k; color_convert(p, k); color_convert(k, q);
+      if (std::abs((int)q[0] - a) > 1 || std::abs((int)q[1] - b) > 1 || std::abs((int)q[2] - c) > 1) REPRODUCED("rgb8 (%d,%d,%d) -> cmyk32f -> rgb8 gives (%d,%d,%d)", a, b, c, (int)q[0], (int)q[1], (int)q[2]); } }
   if (bad) REPRODUCED("%ld pixels: color_convert into this layout does not pair channels by colour name / from rgba is not the conversion of the premultiplied rgb", bad);
   if (bada) REPRODUCED("%ld pixels: alpha not set to max when converting from a colour space without alpha", bada);
   NOT_REPRODUCED("conversions agree with the canonical-layout conversion"); }
